@@ -8,6 +8,10 @@ pub struct G {
 
 fn alpha_of(text: &str) -> String {
     let mut a: Vec<char> = vec!['a', 'b'];
+    // ANY must step over every UTF-8 width
+    if text.contains("ANY") {
+        a.push('\u{1f600}');
+    }
     for c in [' ', '#', 'é', '1', 'A', '\n', 'x'] {
         if text.contains(c) || c == 'x' {
             a.push(c);
